@@ -242,6 +242,26 @@ fn check_tape(tape: &[u8], gates: &Gates, stats: &mut Stats, counting: bool, cli
     if declaration_less {
         chunks.push((*choice.pick(&["(* notes only *)\n", "\n\n", "", "(* a *) (* b *)"])).to_string());
     }
+    // declarations that the pinned tree answers with "not implemented" (P9999) next to a faulty unit:
+    // a rule that gives up at such a declaration gives up for everything it visits later, so whether
+    // the fault is still reported must not depend on where the declaration stands.  Only the verdict
+    // is compared (which of the two answers comes first may depend on the order).
+    let unsupported = use_fault && choice.ratio(1, 4) && gates.want("UNSUPPORTED_FEATURE_COMPANION");
+    if unsupported {
+        const UNSUPPORTED: &[&str] = &[
+            "PROGRAM kx_p1\nVAR CONSTANT\nlim : ARRAY[1..3] OF INT := [1, 2, 3];\nEND_VAR\nEND_PROGRAM\n",
+            "FUNCTION_BLOCK kx_fb0\nVAR CONSTANT\nlim : ARRAY[1..3] OF INT := [1, 2, 3];\nEND_VAR\nEND_FUNCTION_BLOCK\n",
+            "TYPE\nkx_st : STRUCT\na : INT;\nEND_STRUCT;\nEND_TYPE\n\nFUNCTION_BLOCK kx_fb\nVAR CONSTANT\nc : kx_st := (a := 1);\nEND_VAR\nEND_FUNCTION_BLOCK\n",
+            "TYPE\nkx_si : INT := 5;\nEND_TYPE\n",
+            "TYPE\nkx_s2 : STRUCT\na : INT;\nEND_STRUCT;\nEND_TYPE\n\nPROGRAM kx_p3\nVAR\ns : kx_s2;\nEND_VAR\ns.a := 1;\nEND_PROGRAM\n",
+            "FUNCTION_BLOCK kx_inner\nVAR_INPUT\ni : INT;\nEND_VAR\nEND_FUNCTION_BLOCK\n\nFUNCTION_BLOCK kx_outer\nVAR CONSTANT\nf : kx_inner;\nEND_VAR\nEND_FUNCTION_BLOCK\n",
+            "FUNCTION kx_fn : INT\nVAR CONSTANT\nr : INT(1..5) := 2;\nEND_VAR\nkx_fn := 1;\nEND_FUNCTION\n",
+        ];
+        let u = (*choice.pick(UNSUPPORTED)).to_string();
+        // at the front, at the back or somewhere between the declarations of the unit
+        let at = choice.below(chunks.len() + 1);
+        chunks.insert(at, u);
+    }
     let n = chunks.len();
     let canonical = Arrangement { files: vec![(0..n).collect()] };
     let base = observe_analyze(&canonical, &chunks).map_err(|(k, d)| Failure::new("canonical", &k, d, json!({"chunks": chunks})))?;
@@ -251,7 +271,7 @@ fn check_tape(tape: &[u8], gates: &Gates, stats: &mut Stats, counting: bool, cli
         }
         return Ok(());
     }
-    let single_fault = unit.planted.is_some();
+    let single_fault = unit.planted.is_some() && !unsupported;
     let mut arrangements: Vec<Arrangement> = vec![];
     if n <= 5 {
         for p in permutations(n) {
@@ -361,6 +381,9 @@ fn check_tape(tape: &[u8], gates: &Gates, stats: &mut Stats, counting: bool, cli
         }
         if declaration_less {
             stats.class("unit.with-declaration-less-chunk");
+        }
+        if unsupported {
+            stats.class("unit.single-fault-next-to-unsupported-declaration(verdict only)");
         }
         stats.absorb_gates(gates);
         if stats.samples.len() < 3 {
